@@ -50,6 +50,12 @@ TraceAgain(e) == /\ Report(IF \A i \in DOMAIN e.v : \E j \in DOMAIN e.rows : e.r
                  /\ pubs' = pubs
                  /\ store' = IF InStore(store, <<e.w, e.z>>, SeqMap(e.v)) THEN MergeStore(store, <<e.w, e.z>>, SeqMap(e.v)) ELSE store
                  /\ out' = NoOut
+\* [op |-> "replay", s, stamps]: bi_merge(store, the rows of the real store stamped <= s); stamps =
+\* the instants the real store held.  Not a publication; the mechanism model follows with its own copy.
+TraceReplay(e) == /\ Report(IF \E i \in DOMAIN e.stamps : e.stamps[i] = e.s THEN "" ELSE "again_not_in_store")
+                  /\ pubs' = pubs
+                  /\ store' = IF e.s \in StoredInstants(store) THEN MergeTable(store, Snapshot(store, e.s)) ELSE store
+                  /\ out' = NoOut
 TraceRead(e)  == /\ Read(<<e.w, e.z>>, e.what)
                  /\ Report(JudgeRead(e))
                  /\ Report(JudgeModel(e))
@@ -59,6 +65,7 @@ Next == /\ l < Len(Obs[c].events)
         /\ LET e == Ev(c, l + 1) IN
               \/ e.op = "merge" /\ TraceMerge(e)
               \/ e.op = "again" /\ TraceAgain(e)
+              \/ e.op = "replay" /\ TraceReplay(e)
               \/ e.op = "read"  /\ TraceRead(e)
         /\ l' = l + 1 /\ c' = c
 =============================================================================
